@@ -17,7 +17,7 @@ EX = "http://ex.org/"
 RDF_TYPE = "http://www.w3.org/1999/02/22-rdf-syntax-ns#type"
 XSD = "http://www.w3.org/2001/XMLSchema#"
 DT = {"string": XSD + "string", "int": XSD + "integer", "lang": "http://www.w3.org/1999/02/22-rdf-syntax-ns#langString",
-      "custom": EX + "dt", "date": XSD + "date"}
+      "custom": EX + "dt", "date": XSD + "date", "email": XSD + "string"}      # "email": a plain literal whose lexical form contains '@'
 SHAPES_NS = "http://weso.es/shapes/"
 
 
@@ -150,7 +150,10 @@ def generate_triples(rows, values, representative=False, shapemap=False):
             tagj = "%s%s%d" % (p, "".join(str(x) for x in tgt), j)
             if kind == "lit":
                 # lexical forms are unique per (node, property slot): examples can be attributed to the node they came from
-                o = ("lit", DT[tgt[1]], "v%d_%s_%d" % (j, row.rid, i) if tgt[1] != "int" else str(j + 1 + 10 * i + 1000 * (ord(row.rid[0]) - 96)))
+                lex = "v%d_%s_%d" % (j, row.rid, i) if tgt[1] != "int" else str(j + 1 + 10 * i + 1000 * (ord(row.rid[0]) - 96))
+                if tgt[1] == "email":
+                    lex = "u%d_%d@%s.example.org" % (j, i, row.rid)
+                o = ("lit", DT[tgt[1]], lex)
             elif kind == "iri":
                 o = ("iri", "%sv/%s_%d_%s" % (EX, row.rid, i, tagj))
             elif kind == "bnode":
